@@ -59,19 +59,20 @@ def _verus(text, unit, gdir, jobs, rlimit, fname):
     os.makedirs(cdir, exist_ok=True)
     cfile = os.path.join(cdir, f'{unit}-{sha[:24]}.json')
     raw = None
+    logdir = os.path.join(gdir, f'log-{unit}-{os.getpid()}')
+    cmd = ['verus', path, '--output-json', '--time-expanded', '--multiple-errors', '30', '--error-format=json',
+           '--triggers-mode', 'silent', '--num-threads', str(jobs), '--log-all', '--log-dir', logdir]
+    if rlimit:
+        cmd += ['--rlimit', str(rlimit)]
     if os.path.exists(cfile):
         try:
             raw = json.load(open(cfile))
             raw['cache_hit'] = True
+            raw['cmd'] = ' '.join(cmd) + '   (result taken from the cache: same generated text, same Verus version)'
         except (OSError, ValueError):
             raw = None
     if raw is None:
-        logdir = os.path.join(gdir, f'log-{unit}-{os.getpid()}')
         shutil.rmtree(logdir, ignore_errors=True)
-        cmd = ['verus', path, '--output-json', '--time-expanded', '--multiple-errors', '30', '--error-format=json',
-               '--triggers-mode', 'silent', '--num-threads', str(jobs), '--log-all', '--log-dir', logdir]
-        if rlimit:
-            cmd += ['--rlimit', str(rlimit)]
         t0 = time.time()
         p = subprocess.run(cmd, capture_output=True, text=True, cwd=gdir)
         wall = time.time() - t0
